@@ -268,7 +268,8 @@ fn acting_calls(pl: &Plan, prefix: &str, subset: bool) -> Vec<(String, Arg, Opti
         for mac in ACT1 {
             v.push((mac.to_string(), a.clone(), None, vec![], 0, mcall(mac, prefix, a, None, &[], 0)));
         }
-        for d in &pl.datas {
+        for d in pl.datas.iter().chain(std::iter::once(&vec![0xffu8, b'y'])) {
+            // (the third value is not valid UTF-8: the macro must compare bytes, not text)
             v.push(("write_all".to_string(), a.clone(), None, d.clone(), 0, mcall("write_all", prefix, a, None, d, 0)));
         }
         for m in &pl.modes {
